@@ -73,6 +73,9 @@ WellFormed(st, stk) ==
     [] st[1] = "swap"           -> n >= 2
     [] st[1] = "extend"         -> ExtendOK(st[2], cols)
     [] st[1] = "wextend"        -> WExtendOK(st[2], st[3], st[4], st[5], cols)
+    \* mextend: ONE extend call without window arguments that mixes a row-wise assignment with a window function that
+    \* needs an ordering, or with an aggregate of an expression - never well formed (only generated as an ill-formed step)
+    [] st[1] = "mextend"        -> FALSE
     [] st[1] = "project"        -> ProjectOK(st[2], st[3], cols)
     [] st[1] = "select_rows"    -> ExprOK(st[2], cols)
     [] st[1] = "select_columns" -> Len(st[2]) >= 1 /\ NoDup(st[2]) /\ SetOf(st[2]) \subseteq SetOf(cols)
@@ -338,6 +341,7 @@ MethodExprs(N) ==
   \* methods of fractions (halves and quarters: exact ties for round), is_nan
   \cup {<<"uq", op, <<"b", "/", C(c), K(d)>>>> : op \in QOps, c \in N, d \in {2, 4}}
   \cup {<<"nan", C(c)>> : c \in N} \cup {<<"nan", <<"b", "/", C(c), K(2)>>>> : c \in N}
+  \cup {<<"around", C(c), 0 - 1>> : c \in N} \cup {<<"around", <<"b", "*", C(c), K(7)>>, 0 - 1>> : c \in N}
 \* text methods of the catalogue over the text columns: results land in a text column (t) or a numeric one (z)
 TextExprsT(S) ==
   {<<"cat", C(p[1]), C(p[2])>> : p \in Pairs(S)} \cup {<<"cat", C(c), <<"ks", 9>>>> : c \in S}
@@ -469,6 +473,8 @@ MicroSteps(f, stk) ==
                                                                      p \in {<<>>, <<"y">>}}
     \* the FIRST table again as a second branch (a later part of the pipeline reads a table an earlier part reads too)
     [] f = "stack1"  -> IF n < 2 THEN {<<"table", "t1">>} ELSE {}
+    \* a concat that adds the label column "src"
+    [] f = "bsrc"    -> IF n >= 2 THEN {<<"concat", "src">>} ELSE {}
     \* a join whose keys have different names on the two sides (left.o = right.x)
     [] f = "bink"    -> IF n >= 2 /\ "o" \in SetOf(stk[n - 1].cols) /\ "x" \in SetOf(cols)
                           THEN {<<"join", jt, <<<<"o", "x">>>>>> : jt \in {"INNER", "LEFT"}} ELSE {}
@@ -515,6 +521,9 @@ BadCandidates(stk) ==
   \cup {<<"project", <<<<"z", "cumsum", c>>>>, <<>>>> : c \in N}
   \cup {<<"project", <<<<"z", fn, c>>>>, <<>>>> : fn \in BadFns, c \in N}
   \cup {<<"wextend", <<<<"w", fn, c, 0>>>>, <<>>, <<>>, <<>>>> : fn \in {"complex", "argexpr"}, c \in N}
+  \* a row-wise assignment FIRST, then a window function that needs an ordering / an aggregate of an expression, in one
+  \* extend call without partition_by / order_by
+  \cup {<<"mextend", <<<<"z", "nonagg", c, 0>>, <<"w", fn, c, 0>>>>>> : fn \in {"cumsum", "argexpr"}, c \in N}
   \cup {<<"select_rows", <<"b", ">", C("nosuch"), K(1)>>>>}
   \cup {<<"select_columns", <<"nosuch">>>>, <<"drop_columns", <<"nosuch">>>>}
   \* columns an earlier step removed: known to a source, not to this prefix
